@@ -108,7 +108,7 @@ REQUIRED_BRANCHES = [
 ]
 
 
-def scenario_cfg(sc, steps, export=True, act=None, cls=None, small=False):
+def scenario_cfg(sc, steps, export=True, act=None, cls=None, small=False, pinned=None, invariant=None):
     subst = {
         "Scenario": '"%s"' % sc["name"],
         "Keys": _set(sc["keys"]),
@@ -122,7 +122,12 @@ def scenario_cfg(sc, steps, export=True, act=None, cls=None, small=False):
     if small:
         subst.update({"PageSize": 256, "TrunkCap": 3, "ValLenSeq": "VL_tiny"})
     add = ["ACTION_CONSTRAINT Export"] if export else []
-    return tlc.cfg_variant("btree", "BTreeMC.cfg", subst=subst, add=add), subst
+    drop = None
+    if pinned is not None:          # model of the behaviour before a repair ("teeth" runs)
+        subst["Quirks"] = '{"%s"}' % pinned
+        drop = ["INVARIANTS"]
+        add.append("INVARIANTS " + invariant)
+    return tlc.cfg_variant("btree", "BTreeMC.cfg", subst=subst, add=add, drop=drop), subst
 
 
 def run_tlc(name, text, subst, tier, subdir="btree", module="BTreeMC", **kw):
@@ -272,6 +277,34 @@ def validate_traces(ctx, tdir):
     return len(results), events
 
 
+# repaired defects: (quirk name, scenario in which it shows itself, invariant that says it never does)
+TEETH = [("sep_chain", "sepmerge", "TeethSep"), ("sep_chain", "overpage", "TeethSep"),
+         ("cursor_empty_leaf", "fullparent", "TeethCursor"), ("range_excl_empty", "emptykey", "TeethRange")]
+
+
+def teeth(ctx):
+    """The model of each *pinned* (pre-repair) behaviour must still produce its counterexample, and the programs
+    exported from it must not fail on the code as it is now (a failure here = the defect is back)."""
+    done = []
+    for quirk, scn, inv in TEETH:
+        if quirk in quirks():
+            continue                 # still modelled as the current behaviour: nothing to compare
+        sc = next(s for s in SCENARIOS if s["name"] == scn)
+        text, subst = scenario_cfg(sc, sc["steps"][0], pinned=quirk, invariant=inv)
+        r = tlc.run("btree", "BTreeMC", "BTreeMC_teeth_%s_%s.cfg" % (quirk, scn), cfg_text=text, coverage=False, timeout=1200,
+                    out_name="c18_teeth_%s_%s_%s" % (quirk, scn, ctx.tier), must_pass=False, extra=["-continue"], workers=4, xmx="4g")
+        if inv not in r["violated"]:
+            raise core.ToolError("the model of the pinned behaviour %s no longer violates %s in scenario %s (see %s)"
+                                 % (quirk, inv, scn, r["out"]))
+        s, lines = replay_exports(ctx, [r["out"]], sc.get("cmp", "both"))
+        os.remove(r["out"])
+        report_violations(ctx, s, "teeth:" + quirk)
+        done.append({"pinned": quirk, "scenario": scn, "model_violates": inv, "programs": lines, "cases": s["cases"],
+                     "failing_on_current_code": s["violation_count"], "model_says_defect_shows": s["extra"]["spec_known_cases"]})
+        ctx.cov["transitions"] += r["generated"]
+    ctx.cov["teeth"] = done
+
+
 def run(ctx):
     core.build_harness(["btree_run"])
     quick = ctx.quick
@@ -362,6 +395,9 @@ def run(ctx):
     for f in os.listdir(tdir):
         os.remove(os.path.join(tdir, f))
     os.rmdir(tdir)
+
+    # 4. repaired defects: pinned models keep their counterexamples, which do not reproduce any more
+    teeth(ctx)
 
     ctx.cov["exhaustive"] = True
     ctx.cov["rule"] = ("every transition TLC explores in the bounded BTree scenarios (distinct states expanded once, history "
